@@ -216,6 +216,16 @@ func planC09(tier string, root *simcore.RNG) *plan {
 			sc.Sites["leaf.post"] = lm
 		}
 		sc.Sites["write"] = pick(r, []uint32{1, 4, 32})
+		if r.Intn(4) == 0 {
+			// the output paths already hold something else (an older, larger export)
+			for gi := range sc.Groups {
+				for ji := range sc.Groups[gi] {
+					if sc.Groups[gi][ji].Sink != "tri" {
+						sc.Groups[gi][ji].Pre = pick(r, []int{84, 5000, 2000000})
+					}
+				}
+			}
+		}
 		if r.Intn(2) == 0 {
 			sc.Sites["auto"] = pick(r, []uint32{1, 2, 4})
 		}
